@@ -135,6 +135,8 @@ class Lifecycle(core.Scenario):
     # -- reactive: answer POSTs as they appear (default 200 ok, or the scripted menu)
     def step_check(self):
         w = self.world
+        if self.conn.done and not hasattr(self, 'transport_after_connect'):
+            self.transport_after_connect = w.client.transport()
         for pr in w.server.pending_reqs('POST'):
             if getattr(pr, 'queued', False):
                 continue
@@ -188,6 +190,10 @@ class Lifecycle(core.Scenario):
                 s.world.ws_push(ws, ('close',))
             elif what == 'probe_garbage':
                 s.world.ws_push(ws, '')
+            elif what == 'probe_ok_drop':
+                # the probe is answered, then the connection is lost: the client's next write on it fails
+                s.world.ws_push(ws, '3probe')
+                ws.closed_by_server = True
         if what != 'probe_silence':
             acts.append(core.Action('WS<-' + what, fire_p, en_p))
         return acts
@@ -302,6 +308,10 @@ class Lifecycle(core.Scenario):
                 late = [e for e in ev[i + 1:] if not (e[0] == 'message' and self.msg_step.get(e[1], 10 ** 9) < dstep)]
                 if late:
                     self.flag('event_after_disconnect', 'events after disconnect: %r' % [e[:2] for e in late], trigger=trig)
+        # a failed upgrade leaves the client on polling: everything it sent must have gone out as POSTs
+        if p['connect'] == 'open_up' and p.get('ws', ['accept', 'probe_ok']) != ['accept', 'probe_ok'] and not self.conn.exc:
+            if getattr(self, 'transport_after_connect', 'polling') != 'polling':
+                self.flag('wrong_transport_adopted', 'transport() = %r after an upgrade that failed' % self.transport_after_connect, trigger=trig)
         # clean state
         if c.state != 'disconnected' or c.sid is not None:
             self.flag('state_not_clean', 'state %r sid %r at the horizon' % (c.state, c.sid), trigger=trig)
@@ -432,7 +442,7 @@ def param_list(ctx):
                        'app': ['disconnect'], 'effects': {'disconnect': ['sleep', 0.25]}})
         # 5. upgrade attempts
         for beh in (['refuse'], ['accept', 'probe_ok'], ['accept', 'probe_wrong'], ['accept', 'probe_silence'],
-                    ['accept', 'probe_close'], ['accept', 'probe_garbage']):
+                    ['accept', 'probe_close'], ['accept', 'probe_garbage'], ['accept', 'probe_ok_drop']):
             for seq in (['close'], ['msg', 'close'], ['silence'], ['err']):
                 ps.append({'impl': impl, 'transports': None, 'connect': 'open_up', 'ws': beh, 'polls': seq})
             ps.append({'impl': impl, 'transports': None, 'connect': 'open_up', 'ws': beh, 'polls': ['msg'], 'app': ['send', 'disconnect']})
